@@ -97,3 +97,97 @@ func Harness_C23_trim_heap_order() {
 	}
 	v.Reach("C23.heap.end")
 }
+
+// An invalidation pass over a step shard (invalidateIteratorStart/Next, as cache2Shard.invalidate runs
+// it) while the trimmer removes buckets between its steps (removeBucket - any bucket, also the one the
+// pass stands on or will visit next, at most one removal per step): every bucket that is still in the
+// shard when the pass ends was visited by it, no bucket is visited twice, and map and list stay in step.
+func Harness_C23_invalidation_pass_survives_removal() {
+	shard := &cache2Shard{bucketM: map[string]*cache2Bucket{}, bucketL: newCache2BucketList()}
+	keys := []string{"a", "b", "c"}
+	var bs [3]*cache2Bucket
+	for i, k := range keys {
+		b := &cache2Bucket{key: k}
+		bs[i] = b
+		shard.bucketM[k] = b
+		shard.bucketL.add(b)
+	}
+	info := &cache2UpdateInfo{}
+	info.bucketCountS[0] = 3
+	var visited, removed [3]bool
+	idx := func(b *cache2Bucket) int {
+		for i := range bs {
+			if bs[i] == b {
+				return i
+			}
+		}
+		return -1
+	}
+	trimStep := func() {
+		if v.NondetBool() {
+			k := v.Choice(3)
+			if !removed[k] {
+				shard.removeBucket(bs[k], info)
+				removed[k] = true
+			}
+		}
+	}
+	trimStep() // before the pass starts
+	b := shard.invalidateIteratorStart()
+	for steps := 0; b != nil && steps < 4; steps++ {
+		i := idx(b)
+		v.Assert("C23.pass.visits_a_shard_bucket_once", i >= 0 && !visited[i])
+		if i >= 0 {
+			visited[i] = true
+		}
+		trimStep()
+		b = shard.invalidateIteratorNext()
+	}
+	v.Assert("C23.pass.ends", b == nil)
+	left := 0
+	for i := range bs {
+		if !removed[i] {
+			left++
+			v.Assert("C23.pass.every_remaining_bucket_was_visited", visited[i])
+			v.Assert("C23.pass.remaining_bucket_still_indexed", shard.bucketM[keys[i]] == bs[i])
+		} else {
+			v.Assert("C23.pass.removed_bucket_detached", bs[i].next == nil && bs[i].prev == nil && bs[i].key == "")
+		}
+	}
+	v.Assert("C23.pass.map_and_list_agree", len(shard.bucketM) == left && shard.bucketL.len() == left && info.bucketCountS[0] == left)
+	v.Reach("C23.pass.end")
+}
+
+// cache2Bucket.invalidate: merge-join of the sorted invalidated chunk starts (1..3, arbitrary) with the
+// bucket's sorted chunk starts (1..3, arbitrary): exactly the chunks whose start is listed get the
+// invalidation stamp, all others keep theirs.
+func Harness_C23_bucket_invalidate() {
+	nb := 1 + v.Choice(3)
+	b := &cache2Bucket{}
+	for i := 0; i < nb; i++ {
+		t := v.NondetIntRange(0, 1000)
+		if i > 0 {
+			v.Assume(t > b.times[i-1])
+		}
+		b.times = append(b.times, t)
+		b.chunks = append(b.chunks, &cache2Chunk{start: t, invalidatedAt: 7})
+	}
+	nt := 1 + v.Choice(3)
+	var times []int64
+	for i := 0; i < nt; i++ {
+		t := v.NondetIntRange(0, 1000)
+		if i > 0 {
+			v.Assume(t > times[i-1])
+		}
+		times = append(times, t)
+	}
+	b.invalidate(times, 99)
+	for i, c := range b.chunks {
+		listed := false
+		for _, t := range times {
+			listed = v.Or(listed, t == b.times[i])
+		}
+		v.Assert("C23.bucket.listed_chunk_invalidated_others_untouched", v.Or(v.And(listed, c.invalidatedAt == 99), v.And(!listed, c.invalidatedAt == 7)))
+	}
+	v.Reach("C23.bucket.end")
+}
